@@ -260,12 +260,11 @@ def cells(tier):
     if not quick:
         flat("values/normal/1x6", "normal", 1, 6, budget=3000.0)
         flat("values/normal/1x7", "normal", 1, 7, dg=1, budget=3000.0)
-        flat("tags/normal/2", "normal", 2, 1, dg=1, symtag=True, budget=3000.0)
     for gkey in sorted(GROUPS, key=int):
         for sname, spec in group_shapes(gkey, tier):
-            modes = ("normal",) if quick else ("normal", "possdup")
+            modes = ("normal",) if (quick or sname != "1full") else ("normal", "possdup")
             for mode in modes:
-                nsym, L = (3, 2) if quick else (4, 3)
+                nsym, L = (3, 2) if quick else (3, 3)
                 out.append(Cell(f"group/{gkey}/{sname}/{mode}",
                                 (lambda I, g=gkey, s=spec, m=mode, n=nsym, l=L:
                                  h_group(I, g, s, m, n, l, 3, True)),
